@@ -2,7 +2,12 @@
 import json
 import re
 import os
-from vlib import Check, read_ndjson, main
+from vlib import Undecided, Check, read_ndjson, main
+
+
+def unbounded(c):
+    """Apalache: the counter-level abstraction ConnCounter.tla for ALL thresholds and any number of connections."""
+    c.apalache_inductive("ConnCounter", ("cur + 1 < Stop", "cur + 1 <= Stop"), cinit="ConstInit")
 
 
 def run(c: Check):
@@ -27,6 +32,7 @@ def run(c: Check):
                            env={"VERIF_NSTRESS": 40 if th else 8})
     ev2 = read_ndjson(out2)
     fails += c.validate_segments("TraceConnLimiter", "TraceConnLimiter.cfg", ev2, is_reset=lambda e: True)
+    unbounded(c)
     # pipeline limit
     c.tlc_mc("Pipeline", "Pipeline_mc.cfg", name="pipeline K=2 N=6 incl. liveness AllServed")
     out3, _ = c.go_harness("internal/dnsserver", "^TestVerifC18Pipeline$", files=["c18pipe_test.go", "vtls_test.go"])
